@@ -35,19 +35,26 @@ static int ord_sfx(const void *a, size_t al, const void *b, size_t bl) {  /* com
     for (size_t i = 1; i <= n; i++) if (x[al - i] != y[bl - i]) return x[al - i] < y[bl - i] ? -7 : 9;
     return al == bl ? 0 : (al < bl ? -3 : 5);
 }
+static int ord_ci(const void *a, size_t al, const void *b, size_t bl) {   /* NOT injective: letter case is ignored, so distinct byte strings can be equal keys */
+    const unsigned char *x = a, *y = b; size_t n = al < bl ? al : bl;
+    for (size_t i = 0; i < n; i++) { unsigned char p = x[i], q = y[i]; if (p >= 'A' && p <= 'Z') p += 32; if (q >= 'A' && q <= 'Z') q += 32; if (p != q) return p < q ? -1 : 1; }
+    return al == bl ? 0 : (al < bl ? -1 : 1);
+}
 #define COUNTING(name, base) static int name(const void *a, size_t al, const void *b, size_t bl) { cmp_calls++; return base(a, al, b, bl); }
-COUNTING(cnt_bytes, ord_bytes) COUNTING(cnt_rev, ord_rev) COUNTING(cnt_len, ord_len) COUNTING(cnt_sfx, ord_sfx)
+COUNTING(cnt_bytes, ord_bytes) COUNTING(cnt_rev, ord_rev) COUNTING(cnt_len, ord_len) COUNTING(cnt_sfx, ord_sfx) COUNTING(cnt_ci, ord_ci)
 /* configuration 0 leaves the library's default comparator in place */
 static const struct { const char *name; cmp_t model; cmp_t installed; } ORD[] = {
     {"default", ord_bytes, NULL}, {"bytes(counting)", ord_bytes, cnt_bytes}, {"reverse", ord_rev, cnt_rev},
-    {"length-then-bytes", ord_len, cnt_len}, {"suffix-first", ord_sfx, cnt_sfx}};
-#define NORD 5
+    {"length-then-bytes", ord_len, cnt_len}, {"suffix-first", ord_sfx, cnt_sfx}, {"case-insensitive(non-injective)", ord_ci, cnt_ci}};
+#define NORD 6
+#define ORD_CI 5
 
 /* ------------------------------------------------------------------ universe */
 typedef struct { unsigned char *k; size_t kl; bool is_str; bool probe_only; } ukey_t;
 static ukey_t *UK; static int NU;
-static const char *KCLS[] = {"byte", "cstring", "prefix-family", "binary-embedded-nul", "be-int32", "len-twins"};
-#define NKCLS 6
+static const char *KCLS[] = {"byte", "cstring", "prefix-family", "binary-embedded-nul", "be-int32", "len-twins", "case-aliases"};
+#define NKCLS 7
+#define KCLS_ALIAS 6
 
 static bool uk_has(int n, const unsigned char *k, size_t kl) {
     for (int i = 0; i < n; i++) if (UK[i].kl == kl && !memcmp(UK[i].k, k, kl)) return true;
@@ -75,6 +82,11 @@ static void universe_make(rng_t *r, int cls, int n) {
                   for (size_t i = 0; i < l; i++) b[i] = rng_chance(r, 1, 3) ? 0 : (unsigned char)rng_below(r, 256); break; }
         case 4: { uint32_t v = (uint32_t)rng_below(r, n < 64 ? 300 : 1000000);
                   b[0] = (unsigned char)(v >> 24); b[1] = (unsigned char)(v >> 16); b[2] = (unsigned char)(v >> 8); b[3] = (unsigned char)v; l = 4; break; }
+        case 6: { /* spellings that differ only in letter case: equal keys under the case-insensitive ordering */
+                  if (NU > 0 && rng_chance(r, 1, 2)) { ukey_t *o = &UK[rng_below(r, (uint32_t)NU)]; memcpy(b, o->k, o->kl); l = o->kl;
+                      for (size_t i = 0; i + 1 < l; i++) if (rng_chance(r, 1, 2)) b[i] ^= 0x20; }
+                  else { int len = 1 + (int)rng_below(r, 3); for (int i = 0; i < len; i++) b[i] = (unsigned char)("kqzKQZ"[rng_below(r, 6)]); b[len] = 0; l = (size_t)len + 1; }
+                  is_str = true; break; }
         default: { /* keys differing only in length: x, x\0, x\0\0 ... and x itself a prefix */
                   if (NU > 0 && rng_chance(r, 2, 3)) { ukey_t *o = &UK[rng_below(r, (uint32_t)NU)];
                       if (o->kl < 40) { memcpy(b, o->k, o->kl); b[o->kl] = rng_chance(r, 1, 2) ? 0 : o->k[0]; l = o->kl + 1; } }
@@ -563,6 +575,7 @@ static void phase_exhaustive(int U) {
     int cfg = VF.shard;
     ORDI = cfg % NORD;
     int kcls = (cfg / NORD + cfg) % NKCLS;
+    if (ORDI == ORD_CI) kcls = KCLS_ALIAS; else if (kcls == KCLS_ALIAS) kcls = 1;
     long caseno = 1000000000L + cfg;            /* one pseudo-case per configuration */
     if (VF.only_case >= 0 && VF.only_case != caseno) return;
     if (VF.only_case < 0 && VF.start_case > caseno) return;
@@ -654,12 +667,15 @@ static void history(long caseno) {
     ORDI = (int)rng_below(&R, NORD);
     if (P == 2 && ORDI == 0) ORDI = 1;           /* cost is only observable through an installed comparator */
     int kcls = (int)rng_below(&R, NKCLS);
+    if (ORDI == ORD_CI && rng_chance(&R, 2, 3)) kcls = KCLS_ALIAS;
     static const int US[] = {4, 16, 64, 1024};
     int U = US[rng_below(&R, 4)];
     int nops = VF.thorough ? 5000 : 2000;
     if (P == 3) { U = US[rng_below(&R, 3)]; nops = 1400; }
     if (kcls == 0 && U > 200) kcls = 3;
     if (kcls == 4 && U == 4) kcls = 1;
+    if (kcls == KCLS_ALIAS && U > 64) U = 64;
+    if (kcls == KCLS_ALIAS) vf_count("histories_with_alias_spellings", 1);
     universe_make(&R, kcls, U);
     if (P == 4) for (int i = 0; i < NU / 4 + 1; i++) UK[rng_below(&R, (uint32_t)NU)].probe_only = true;
     bool alluniverse_probe_only = true; for (int i = 0; i < NU; i++) if (!UK[i].probe_only) alluniverse_probe_only = false;
@@ -730,6 +746,40 @@ static void history(long caseno) {
     universe_free();
 }
 
+/* C03 directed epoch sweep: between two audited complete walks the 8-bit travel id is advanced by exactly k
+ * traversal starts of a chosen kind (nearest-key searches, searches with an abandoned continuation, abandoned
+ * zero-cursor walks, searches with a completed continuation), for every k of a range around one and two
+ * wraps - so the wrap is caused by each kind of start in turn and stale marks of the last complete walk meet
+ * every id value */
+static void epoch_sweep(long caseno, int kind, int k) {
+    rng_seed(&R, VF.seed, (uint64_t)caseno);
+    ORDI = (int)rng_below(&R, NORD); int kcls = 1 + (int)rng_below(&R, 2);
+    universe_make(&R, kcls, 12 + (int)rng_below(&R, 24));
+    static const char *KN[] = {"nearest searches", "searches + abandoned continuation", "abandoned zero-cursor walks", "searches + completed continuation", "mixed"};
+    vf_case_begin(caseno, "epoch sweep: %d x [%s] between audited walks, %d keys, ordering=%s", k, KN[kind], NU, ORD[ORDI].name);
+    table_new();
+    for (int i = 0; i < NU && !abandon; i++) if (i % 4 != 3) op_put(i);
+    for (int round = 0; round < 4 && !abandon; round++) {
+        op_walk(-1, round & 1);
+        for (int j = 0; j < k && !abandon; j++) {
+            int id = (int)rng_below(&R, (uint32_t)NU); int kd = kind == 4 ? (int)rng_below(&R, 4) : kind;
+            switch (kd) {
+            case 0: op_nearest(id, false, 0, 0); break;
+            case 1: if (MN > 1) op_nearest(id, false, 2, 1 + (int)rng_below(&R, 3)); break;
+            case 2: if (MN > 1) op_walk((int)rng_below(&R, (uint32_t)(MN < 5 ? MN : 5)), false); break;
+            default: op_nearest(id, false, 1, 0); break;
+            }
+        }
+        if (abandon) break;
+        /* a few mutations, then the audited walk of the next round */
+        for (int m = 0; m < 3 && !abandon; m++) { int id = (int)rng_below(&R, (uint32_t)NU); if (rng_chance(&R, 1, 2)) op_put(id); else op_remove(id); }
+        vf_count("evaluations", 1);
+    }
+    if (!abandon) op_walk(-1, false);
+    vf_count(abandon ? "histories_abandoned" : "epoch_sweep_histories", 1);
+    table_free(); m_clear(); universe_free();
+}
+
 /* C02 thorough: very large tables */
 static void big_history(long caseno, int n) {
     rng_seed(&R, VF.seed, (uint64_t)caseno);
@@ -784,6 +834,7 @@ static void phase_oom(int U) {
     int cfg = VF.shard;
     ORDI = cfg % NORD;
     int kcls = (cfg / NORD + cfg) % NKCLS;
+    if (ORDI == ORD_CI) kcls = KCLS_ALIAS; else if (kcls == KCLS_ALIAS) kcls = 1;
     long caseno = 2000000000L + cfg;
     if (VF.only_case >= 0 && VF.only_case != caseno) return;
     if (VF.only_case < 0 && VF.start_case > caseno) return;
@@ -861,6 +912,13 @@ int main(int argc, char **argv) {
     if (P == 15) { phase_oom(U); return vf_finish() ? 1 : 0; }
     if (do_ex && (VF.only_case < 0 || VF.only_case >= 1000000000L)) phase_exhaustive(U);
     for (long c = 0; c < ncases; c++) if (vf_mine(c)) history(c);
+    if (P == 3 || P == 4) {   /* k = 1..300 (thorough) or 225..290 plus a coarse grid (quick), 5 kinds of traversal start */
+        long c = 700000;
+        for (int kind = 0; kind < 5; kind++) for (int k = 1; k <= 300; k++, c++) {
+            if (!VF.thorough && !(k >= 225 && k <= 290) && (k % 16)) continue;
+            if (vf_mine(c)) epoch_sweep(c, kind, k);
+        }
+    }
     long nbig = vf_arg_long("big", 0);
     for (long c = 0; c < nbig; c++) if (vf_mine(500000 + c)) big_history(500000 + c, (int)vf_arg_long("bign", 20000));
     return vf_finish() ? 1 : 0;
